@@ -8,6 +8,7 @@ the exact argument, a high-precision reference is computed here, and the native 
 within LIBM_ULPS of it.
 """
 import json
+import re
 import os
 import random
 import subprocess
@@ -254,8 +255,12 @@ def run_lean(lean_dir, reqs):
     return lines[1:]
 
 
-def compare_outputs(native_rec, lean_line, fmt):
-    """Return (ok, detail, n_exact, n_libm)."""
+STR_NUM_RE = re.compile(r'⟦([^⟧]*)⟧')
+
+
+def compare_outputs(native_rec, lean_line, fmt, printed=None):
+    """Return (ok, detail, n_exact, n_libm). `printed`, when given, maps (fmt, canonical number text) to
+    the text PhQ::Print gives that number; string outputs are then compared too."""
     if native_rec is None:
         return False, 'native harness produced no output (crash?)', 0, 0
     if native_rec.get('error'):
@@ -298,6 +303,21 @@ def compare_outputs(native_rec, lean_line, fmt):
             if o['t'] != l:
                 return False, '%s: native %s lean %s' % (o['l'], o['t'], l), n_exact, n_libm
             n_exact += 1
+        elif ty == 'str' and printed is not None and l.startswith('str:'):
+            bad = []
+
+            def sub(m):
+                t = printed.get((fmt, m.group(1)))
+                if t is None:
+                    bad.append(m.group(1))
+                    return '?'
+                return t
+            want = STR_NUM_RE.sub(sub, l[4:])
+            if bad:
+                continue   # libm inside a printed number: not comparable text for text
+            n_exact += 1
+            if o['t'] != want:
+                return False, '%s: native %r, model %r' % (o['l'], o['t'], want), n_exact, n_libm
         else:
             # ints (hashes, enumerators), strings, dims: compared by the property-specific checks
             continue
@@ -325,7 +345,7 @@ def select_entries(model_entries, pred):
 
 
 def correspond(cache, lean_dir, entries, seed, per_entry=2, variant='O1', fmts=(32, 64, 80),
-               positive=False, exe=None, corpus=None):
+               positive=False, exe=None, corpus=None, str_printer=None):
     """Run the correspondence on the given model entries. Returns a result dict."""
     rng = random.Random(seed)
     if exe is None:
@@ -374,9 +394,20 @@ def correspond(cache, lean_dir, entries, seed, per_entry=2, variant='O1', fmts=(
     disagreements = []
     n_exact = n_libm = 0
     hist = {}
+    printed = None
+    if str_printer is not None:
+        want = set()
+        for k, (iid, fmt, vals) in enumerate(meta):
+            l = lean_lines[k] if k < len(lean_lines) else ''
+            for part in l.split('\t'):
+                if part.startswith('str:'):
+                    for t in STR_NUM_RE.findall(part):
+                        if not t.startswith('libm'):
+                            want.add((fmt, t))
+        printed = str_printer(sorted(want))
     for k, (iid, fmt, vals) in enumerate(meta):
         l = lean_lines[k] if k < len(lean_lines) else 'missing'
-        ok, detail, ne, nl = compare_outputs(native[k], l, fmt)
+        ok, detail, ne, nl = compare_outputs(native[k], l, fmt, printed)
         n_exact += ne
         n_libm += nl
         if vals:
